@@ -91,6 +91,8 @@ js::Value Op::to_json() const
             s.set("misaligned_caller_buffers", Value::Bool(true));
         if (adjacent_bufs)
             s.set("adjacent_caller_buffers", Value::Bool(true));
+        if (host_team > 1)
+            s.set("host_team", Value::I(host_team));
         if (strategy == sim::ST_REPLAY)
         {
             Value arr = Value::Arr();
@@ -158,6 +160,7 @@ Op Op::from_json(const js::Value &v)
         o.main_first = s->getb("main_first");
         o.misaligned_bufs = s->getb("misaligned_caller_buffers");
         o.adjacent_bufs = s->getb("adjacent_caller_buffers");
+        o.host_team = (int)s->geti("host_team", 0);
         if (const js::Value *arr = s->find("schedule"))
             for (auto &e : arr->a)
                 if (e.a.size() == 4)
@@ -484,6 +487,11 @@ struct Gen
         o.input = pick_input();
         o.input_seed = r.next();
         sim_params(o, o.rows * 64);
+        if (!fault_free && r.chance(1, 8))
+        {
+            static const int ht[] = {2, 2, 3, 4, 8};
+            o.host_team = r.pick(ht); // called from inside an application parallel region
+        }
     }
     void gen_copy(Op &o, bool zero)
     {
@@ -538,6 +546,11 @@ struct Gen
         }
         o.input_seed = r.next();
         sim_params(o, o.size);
+        if (!fault_free && r.chance(1, 8))
+        {
+            static const int ht[] = {2, 2, 3, 4, 8};
+            o.host_team = r.pick(ht);
+        }
     }
     void gen_icv(Op &o)
     {
@@ -639,6 +652,13 @@ Plan generate(const std::string &profile, uint64_t seed, const GenLimits &lim)
         static const uint64_t c[] = {5, 8, 8, 8, 9, 12, 16, 17, 24};
         o.cols = r.pick(c);
         o.dim = r.chance(3, 4) ? 1 : 2;
+        o.misaligned_bufs = r.chance(1, 2);
+        if (r.chance(1, 60))
+        {
+            o.rows = (uint64_t)1 << r.range(15, 17); // wide levels: thresholds such as 2^15 nodes
+            o.cols = r.range(1, 5);
+            o.dim = 1;
+        }
         o.batch = r.range(2, 9);
         o.nthreads = (int)r.range(1, 8);
         o.input = r.chance(3, 4) ? IN_RAND : IN_RAND64;
